@@ -47,6 +47,7 @@ type Contract struct {
 	Modular  bool
 	Trusted  bool
 	IsLemma  bool
+	IsPred   bool
 	Params   []string // lemma parameters
 	PTypes   []string
 	File     string
@@ -371,7 +372,7 @@ func (pr *Program) LoadContracts(mirrorDir string) error {
 				return fmt.Errorf("%s: duplicate contract for %s", file, c.FuncName)
 			}
 			pr.Contracts[key] = c
-			if c.IsLemma {
+			if c.IsLemma || c.IsPred {
 				continue
 			}
 			fi, ok := pr.ByName[key]
@@ -413,6 +414,23 @@ func parseContractFile(data, file, pkgPath string) ([]*Contract, error) {
 				return nil, fail(err.Error())
 			}
 			cur = &Contract{PkgPath: pkgPath, FuncName: name, File: file, Line: i + 1}
+			out = append(out, cur)
+		case "pred":
+			// pred name(a, b): expr
+			j := strings.Index(rest, "):")
+			if j < 0 {
+				return nil, fail("expected: pred name(params): expr")
+			}
+			name, params, err := parseLemmaHeader(rest[:j+1])
+			if err != nil {
+				return nil, fail(err.Error())
+			}
+			e, err := ParseCExpr(strings.TrimSpace(rest[j+2:]))
+			if err != nil {
+				return nil, fail(err.Error())
+			}
+			cur = &Contract{PkgPath: pkgPath, FuncName: "pred:" + name, IsPred: true, Params: params, File: file, Line: i + 1}
+			cur.Clauses = append(cur.Clauses, &Clause{Kind: "body", Expr: e, Src: rest[j+2:]})
 			out = append(out, cur)
 		case "lemma":
 			name, params, err := parseLemmaHeader(rest)
